@@ -13,6 +13,7 @@ result (permutation of the sub-array, nothing outside it touched, everything lef
 of r > pivot) and slice confinement."""
 import json
 import os
+from concurrent.futures import ThreadPoolExecutor
 from .. import core
 
 FLAVS = {"q": "qutil_qsort_partition", "a": "qutil_aligned_qsort_partition", "t": "qt_qsort_partition"}
@@ -173,12 +174,15 @@ def load_corpus():
 def run_part(ctx, quick):
     rng = ctx.rng.fork()
     pr = ctx.coq_properties("Properties/Properties_C13_part.v")
+    ok, log = ctx.coq_make(["theories/Util/ExtractPart.vo"])
+    if not ok:
+        raise core.BuildError("Util/ExtractPart.v does not compile:\n" + log[-2000:])
     exe = ctx.link("c13_part", ["c13_part.c"], exclude=["qutil.c", "qloop.c"])
     drv = ctx.model_driver("c13part_driver")
     cases = [dict(c) for c in load_corpus()]
     ncorp = len(cases)
     for fl in ("q", "a", "t"):
-        for _ in range(40 if quick else 400):
+        for _ in range(30 if quick else 400):
             cases.append(gen_case(rng, fl))
     cmds = []
     for c in cases:
@@ -186,8 +190,22 @@ def run_part(ctx, quick):
         cmds.append(("solo", c, cmd_solo(c)))
     lines = [x[2] for x in cmds]
     env = dict(os.environ)
-    rc, iout, ierr = core.run_lines(exe, lines + ["Q"], timeout=900, env=env)
-    rc2, mout, merr = core.run_lines(drv, lines, timeout=900)
+    pool = ThreadPoolExecutor(max_workers=1)
+    mfut = pool.submit(core.run_lines, drv, lines, 900)
+    # a crash or a hang (per-command alarm in the harness) ends the process: that command gets CRASH, the rest runs in a fresh process
+    iout, pos, restarts = [], 0, 0
+    while pos < len(lines) and restarts < 6:
+        rc, out, ierr = core.run_lines(exe, lines[pos:] + ["Q"], timeout=900, env=env)
+        out = out[:len(lines) - pos]
+        iout += out
+        pos += len(out)
+        if pos < len(lines):
+            iout.append("CRASH rc=%s" % rc)
+            pos += 1
+            restarts += 1
+    while len(iout) < len(lines):
+        iout.append("CRASH not-run")
+    rc2, mout, merr = mfut.result()
     if len(mout) != len(lines):
         raise core.BuildError("c13part model driver failed: rc=%s, %d of %d answers; %s" % (rc2, len(mout), len(lines), merr[-300:]))
     mism, ofail = [], []
@@ -196,7 +214,7 @@ def run_part(ctx, quick):
     units_total = 0
     samples = []
     for k, (kind, c, line) in enumerate(cmds):
-        io = iout[k] if k < len(iout) else ("CRASH rc=%s" % rc)
+        io = iout[k]
         mo = mout[k]
         d = desc(c, kind)
         hist[kind + ":" + c["flav"]] = hist.get(kind + ":" + c["flav"], 0) + 1
@@ -262,3 +280,18 @@ def run_part(ctx, quick):
         ctx.violation("part-broken", what, {"theorem_or_correspondence": ("real partition threads != Util/PartInterleave machine on " + mism[0][0])
                                             if mism else pr["file"], "first_mismatch": mism[0] if mism else None,
                                             "coq_log": pr["log"][-1500:]}, no_input=True)
+
+
+def replay(ctx, j, case):
+    """re-run one recorded pass / solo command on the working tree (implementation and machine)"""
+    cmd = case["harness_command"]
+    ctx.coq_make(["theories/Util/ExtractPart.vo"])
+    exe = ctx.link("c13_part", ["c13_part.c"], exclude=["qutil.c", "qloop.c"])
+    drv = ctx.model_driver("c13part_driver")
+    rc, io, _ = core.run_lines(exe, [cmd, "Q"], timeout=300)
+    rc2, mo, _ = core.run_lines(drv, [cmd], timeout=300)
+    io = io[0] if io else "CRASH rc=%s" % rc
+    mo = (mo[0] if mo else "none").rsplit(" seq=", 1)[0]
+    print("# re-run on the working tree: %s\n#  impl : %s\n#  model: %s" % (cmd[:200], io[:300], mo[:300]))
+    if io != mo:
+        ctx.violation(j.get("signature", "replay"), "replayed partition pass still differs from the machine: " + io[:160], case)
